@@ -20,7 +20,13 @@ func Equal(a Value, b Value) bool {
 	if a.Format().IsList() {
 		return reflect.DeepEqual(a.Value(), b.Value())
 	}
-	return a.(Comparable).Compare(b.(Comparable)) == 0
+	ac, aok := a.(Comparable)
+	bc, bok := b.(Comparable)
+	if aok && bok {
+		return ac.Compare(bc) == 0
+	}
+	// bits, empty and any values have no order, only equality
+	return reflect.DeepEqual(a.Value(), b.Value())
 }
 
 func EqualVals(a []Value, b []Value) bool {
@@ -37,6 +43,10 @@ func EqualVals(a []Value, b []Value) bool {
 
 func CompareVals(a []Value, b []Value) int {
 	for i, v := range a {
+		if i >= len(b) {
+			// b is a proper prefix of a
+			return 1
+		}
 		c := v.(Comparable).Compare(b[i].(Comparable))
 		if c < 0 {
 			return c
@@ -44,6 +54,10 @@ func CompareVals(a []Value, b []Value) int {
 		if c > 0 {
 			return c
 		}
+	}
+	if len(a) < len(b) {
+		// a is a proper prefix of b
+		return -1
 	}
 	return 0
 }
